@@ -62,6 +62,9 @@ func runHistmon(cfg *RunCfg, rep *Reporter, cov *Cov) {
 	if prop == "C20" {
 		runC20Concurrent(cfg, rep, cov)
 	}
+	if prop == "C09" {
+		runTypedKeys(cfg, rep, cov)
+	}
 }
 
 func runOneHistory(cfg *RunCfg, rep *Reporter, cov *Cov, idx, steps int) {
